@@ -254,6 +254,10 @@ var cursorKinds = []cursorKind{
 	{name: "IteratorMatchingAnyOf", needsNoE: true, open: func(e *cuEnv, tx *bbolt.Tx, fwd bool) ast.SetCursor {
 		return e.S.People.IteratorMatchingAnyOf(e.S.People.IdxRoles, []string{"q", "zz"})(tx, fwd)
 	}},
+	{name: "IteratorMatchingAnyOf-two", needsNoE: true, open: func(e *cuEnv, tx *bbolt.Tx, fwd bool) ast.SetCursor {
+		// two values that both have entities (the same ones): every id once
+		return e.S.People.IteratorMatchingAnyOf(e.S.People.IdxRoles, []string{"q", "p"})(tx, fwd)
+	}},
 	{name: "IteratorMatchingAnyOf-absent", needsNoE: true, open: func(e *cuEnv, tx *bbolt.Tx, fwd bool) ast.SetCursor {
 		if len(e.set) > 0 {
 			return e.S.People.IteratorMatchingAnyOf(e.S.People.IdxRoles, []string{"q"})(tx, fwd)
@@ -265,6 +269,10 @@ var cursorKinds = []cursorKind{
 	}},
 	{name: "links.IterateLinks", needsNoE: true, fwdOnly: true, open: func(e *cuEnv, tx *bbolt.Tx, fwd bool) ast.SetCursor {
 		return e.S.People.Links.IterateLinks(tx, []byte(person))
+	}},
+	{name: "links.IterateLinks+neverLinked", needsNoE: true, fwdOnly: true, open: func(e *cuEnv, tx *bbolt.Tx, fwd bool) ast.SetCursor {
+		// ... united with the links of an entity that never had any (in a read transaction nothing can be created for it: an empty set)
+		return ast.NewUnionSetCursor(e.S.People.Links.IterateLinks(tx, []byte(person)), e.S.People.Links.IterateLinks(tx, []byte(decoy)), true)
 	}},
 	{name: "rclinks.IterateLinks", needsNoE: true, open: func(e *cuEnv, tx *bbolt.Tx, fwd bool) ast.SetCursor {
 		return e.S.People.Rc.IterateLinks(tx, []byte(person), fwd)
